@@ -9,6 +9,7 @@ import (
 	"go/constant"
 	"go/token"
 	"go/types"
+	"sort"
 	"strings"
 
 	"golang.org/x/tools/go/ssa"
@@ -528,6 +529,7 @@ func init() {
 		checkResultShape(r, prog, a, a.CreateFi, "c10")
 		checkCreateEvaluator(r, prog, a, ga, "c10")
 		checkRecoverDiscipline(r, prog, "c10")
+		checkRecordedErrorsNonNil(r, prog, "c10")
 		checkParserOptionCallers(r, prog, "c10")
 		r.importing = "C18"
 		checkGetOpts(r, prog, a, "c18") // no budget unless one is asked for: CreateEvaluator accepts what grammar.Parse accepts
@@ -558,4 +560,113 @@ func init() {
 		r.Explain = "Input-independent argument, hence valid for every byte string: (1) every return of CreateEvaluator/CreateFilter is (nil, non-nil error) or (non-nil, nil) — (nil, nil) only under expression == \"\"; (2) acceptance coincides with grammar.Parse's error, which is p.errs.err() at every return, non-nil iff an error was recorded, and an error is recorded whenever there is no match; (3) every call in (*parser).parse that can reach read/parseRule/parseExpr/actions comes after the recover guard, whose flag is true and has no other writer; the recovering closure nils the value and returns the recorded error; (4) on error-free runs the entry rule yields only types implementing grammar.Expression, so the unguarded assertion cannot panic and the Expression is non-nil; all action assertions are satisfied; (5) no left recursion and no nullable repetition, so the recursive descent terminates; (6) creation-time code outside the parser has no undischarged panic site. Usability of the result (Evaluate / Dump total) is C09 / C19. NOT decided: stack exhaustion on absurd nesting; panics raised by caller-supplied Option functions."
 		r.Assume = append(r.Assume, "a Go panic raised below a deferred recover in the same goroutine is recovered", "regexp.Compile does not panic")
 	})
+}
+
+// checkRecordedErrorsNonNil: whatever is put on the parser's error list is an error: every call of addErr / addErrAt hands
+// over a value that is not nil on that path (a sentinel, a freshly made error, a recovered value asserted to be an
+// error, an error tested against nil, the caller's own parameter under the same obligation). A nil entry makes the
+// list's own rendering dereference nil — inside parse's deferred handler, where nothing recovers any more.
+func checkRecordedErrorsNonNil(r *Run, prog *Program, pfx string) {
+	addErr := prog.Method(prog.GrammarSSA, "parser", "addErr", true)
+	addErrAt := prog.Method(prog.GrammarSSA, "parser", "addErrAt", true)
+	if addErr == nil && addErrAt == nil {
+		r.Fail("unresolved-anchor", pfx+".recorded-errors", "addErr", "grammar/grammar.go", "addErr / addErrAt not found")
+		return
+	}
+	sinks := map[*ssa.Function]bool{}
+	for _, f := range []*ssa.Function{addErr, addErrAt} {
+		if f != nil {
+			sinks[f] = true
+		}
+	}
+	// the parameter through which a sink takes the error
+	errParam := func(f *ssa.Function) int {
+		for i, p := range f.Params {
+			if isErrorType(p.Type()) {
+				return i
+			}
+		}
+		return -1
+	}
+	n := 0
+	for _, fn := range prog.ModuleFuncs() {
+		if fn.Pkg != prog.GrammarSSA || len(fn.Blocks) == 0 {
+			continue
+		}
+		calls := false
+		for _, b := range fn.Blocks {
+			for _, ins := range b.Instrs {
+				if c, ok := ins.(ssa.CallInstruction); ok && sinks[c.Common().StaticCallee()] {
+					calls = true
+				}
+			}
+		}
+		if !calls {
+			continue
+		}
+		fn := fn
+		type verdict struct {
+			ok  bool
+			why string
+		}
+		sites := map[ssa.Instruction]*verdict{}
+		ps := NewPathSim(prog)
+		ps.maxVisits = 2
+		ps.OnEvent = func(st *pstate, ev *Event) {
+			if ev.Instr == nil || ev.Inlined || !sinks[ev.Callee] || ev.In != fn {
+				return
+			}
+			k := errParam(ev.Callee)
+			if k < 0 || k >= len(ev.Args) {
+				return
+			}
+			x := ev.Args[k]
+			ok := definitelyNonNil(x)
+			if !ok {
+				if eq, known := evalEq(st, x, nilSym()); known && !eq {
+					ok = true
+				}
+			}
+			if !ok && x.K == sTAValue && x.A != nil {
+				// the value of `e.(error)` where the assertion is known to have succeeded: an interface holding something
+				if v, known := evalBool(st, &Sym{K: sTAOk, A: x.A, T: x.T}); known && v {
+					ok = true
+				}
+			}
+			if !ok && x.K == sParam && sinks[fn] {
+				ok = true // a sink forwarding its own parameter: its callers carry the obligation
+			}
+			if !ok && x.K == sLoad && x.A != nil && x.A.K == sGlobal {
+				// a package-level sentinel that is assigned once, with an error made in place
+				if g, isG := x.A.V.(*ssa.Global); isG && prog.Globals() != nil {
+					if v, found := prog.Globals().loadGlobal(g, nil, x.T); found && v != nil && definitelyNonNil(v) {
+						ok = true
+					}
+				}
+			}
+			ins := ev.Instr.(ssa.Instruction)
+			v := sites[ins]
+			if v == nil {
+				v = &verdict{ok: true}
+				sites[ins] = v
+			}
+			if !ok {
+				v.ok = false
+				v.why = "the value recorded, " + shortKey(x) + ", is not known to be a non-nil error here [path " + strings.Join(st.trail, " ") + "]"
+			}
+		}
+		ps.Run(fn)
+		// closures of fn (the deferred handler) are functions of their own in the loop above
+		var order []ssa.Instruction
+		for ins := range sites {
+			order = append(order, ins)
+		}
+		sort.Slice(order, func(i, j int) bool { return order[i].Pos() < order[j].Pos() })
+		for k, ins := range order {
+			n++
+			v := sites[ins]
+			r.Check(pfx+".recorded-errors", fmt.Sprintf("%s:record#%d", fn.Name(), k+1), prog.pos(ins.Pos()), v.ok, v.why)
+		}
+	}
+	r.Check(pfx+".recorded-errors", "census", "grammar/grammar.go", n >= 4, fmt.Sprintf("info: %d recording sites examined", n))
 }
